@@ -1019,13 +1019,13 @@ def gen(rng, tier, n=None, focus=None):
             plan.append(rng.choice([8, 8, 8, 16, 16, 32, 64, "heavy", "huge-config"] + ([256, 1024] if tier == "thorough" else [])))
         return [gen_extremes(rng, i, tier, w) for i, w in enumerate(plan[:n])]
     if focus == "size":
-        n = n or (10 if tier == "quick" else 60)
+        n = n or (10 if tier == "quick" else 24)
         top = 13 if tier == "quick" else 17
         # (big maps: every purge costs ~0.4 s in the list-based table model, so their streams stop at 2^13 / 2^14)
-        plan = [(8, top), (16, top), (64, top), (2048, 12 if tier == "quick" else 14), (1024, 12 if tier == "quick" else 14)]
+        plan = [(8, top), (16, top), (64, top), (2048, 12 if tier == "quick" else 13), (1024, 12 if tier == "quick" else 13)]
         while len(plan) < n:
             size = rng.choice([8, 8, 16, 32, 128, 256, 512])
-            plan.append((size, rng.randint(8, top if size < 128 else min(top, 14))))
+            plan.append((size, rng.randint(8, top if size < 128 else min(top, 13))))
         return [gen_size(rng, i, tier, s, l) for i, (s, l) in enumerate(plan[:n])]
     n = n or (70 if tier == "quick" else 500)
     cases = []
